@@ -7,6 +7,7 @@ import Aegean.Spec.C19
   Line protocol for C19 (floats as `x%016x`):
 
   eps <aereg|sf|hand> <x>                      the linking-length conversion (arcmin → chord)
+  vec <raDeg> <decDeg>                         the three regenerated columns of the array given to DBSCAN
   resizef <a> <b> <psf_a> <psf_b> <ratio>      the two regenerated ratio formulas
   resize <ratio> (<id> <a> <b> <psf_a> <psf_b>)*   `resize(catalog, ratio)`; NaN psf = no psf information
   dbscan <chord|aereg|sf> <x> (<id> <raDeg> <decDeg> <fluxKey> <island> <source>)*
@@ -80,6 +81,11 @@ def handle (ws : List String) : String :=
       | some e => showFloat e
       | none => "bad-op"
     | none => "bad-op"
+  | ["vec", ra, dec] =>
+    match floats? [ra, dec] with
+    | some [ra, dec] =>
+      s!"{showFloat (Gen.C19.vec0 ra dec)} {showFloat (Gen.C19.vec1 ra dec)} {showFloat (Gen.C19.vec2 ra dec)}"
+    | _ => "bad-op"
   | ["resizef", a, b, pa, pb, r] =>
     match floats? [a, b, pa, pb, r] with
     | some [a, b, pa, pb, r] =>
@@ -99,7 +105,7 @@ def handle (ws : List String) : String :=
       | some eps =>
         let maxId := rows.foldl (fun m r => max m r.src.id) 0
         let vecs : Array (V3 Float) := rows.foldl
-          (fun (acc : Array (V3 Float)) r => acc.set! r.src.id (unitVecDeg r.ra r.dec))
+          (fun (acc : Array (V3 Float)) r => acc.set! r.src.id (embedWith Gen.C19.vec0 Gen.C19.vec1 Gen.C19.vec2 r.ra r.dec))
           (Array.replicate (maxId + 1) { x := 0.0, y := 0.0, z := 0.0 })
         -- the `≤ eps` test for every pair of ids, evaluated once (the chord is symmetric in IEEE
         -- arithmetic: `(a - b)² = (b - a)²` exactly), so that BFS and checker only do look-ups
